@@ -2,18 +2,31 @@
 
 package world
 
-import "perun.network/go-perun/simhook"
+import (
+	"perun.network/go-perun/simhook"
+
+	"verif/sim/kernel"
+)
 
 // InstallYields routes the repository's yield points to this run's simulator.
 func InstallYields(s *Sim) {
 	simhook.ResetHeld()
 	simhook.SetHandler(s.Yield)
+	// map iteration orders in the instrumented copy (tools/lockinject): a
+	// permutation that depends on the run's PRNG value and on the keys only
+	seed := s.Sc.Seed
+	simhook.SetMapOrder(func(n int, digest uint64, swap func(i, j int)) {
+		s.Note("map-order n=%d digest=%x", n, digest)
+		for i := n - 1; i > 0; i-- {
+			swap(i, int(kernel.Derive(seed, "map-order", digest, i)%uint64(i+1)))
+		}
+	})
 }
 
 func heldNow() int64 { return simhook.HeldCount() }
 
 // RemoveYields detaches the simulator.
-func RemoveYields() { simhook.SetHandler(nil) }
+func RemoveYields() { simhook.SetHandler(nil); simhook.SetMapOrder(nil) }
 
 // HooksEnabled reports whether the binary was built with the verif tag.
 const HooksEnabled = true
